@@ -9,7 +9,8 @@ RULE = ("seeded random continua up to 2x9, 3x9, 4x5, 5x3 units x pooled dissimil
         "incl. 0; delta_empty != 1) x both MIP back-ends, each compared with an unpruned exact optimum (bitmask "
         "dynamic programme <= 14 units, HiGHS MILP, assignment algorithm for 2 annotators); thorough tier adds the "
         "complete grids '2 annotators x <=3 units' (6 segments x 2 labels) and '3 annotators x <=2 units' (6 "
-        "segments); 10 % of the random cases are editing sessions (compute, edit the same continuum object, compute again); "
+        "segments); a corpus of continua whose programme has an integrality gap (LP relaxation below the integer optimum, so "
+        "that the solvers must branch; mined off-line, judged at run time); 10 % of the random cases are editing sessions (compute, edit the same continuum object, compute again); "
         "non-trivial = at least 2 units and 2 non-empty annotators; distinct by SHA-1 of the case")
 ASSUMPTIONS = [
     "pair costs are read from the dissimilarity's compiled d_mat on arrays built by the harness (a formula error "
@@ -116,6 +117,12 @@ def run(ctx):
         case = {"continuum": cspec, "dissim": {"kind": "positional", "delta": 1.0}, "backend": "cbc" if i % 2 else "glpk", "want": "auto"}
         ctx.begin_case(case)
         ctx.observe("family", "near-tie-sweep")
+        check_case(ctx, case)
+    # continua with an integrality gap (the solvers have to branch): see _align_common.hard_mip_cases
+    for i, hc in enumerate(ac.hard_mip_cases(ctx, "partition", limit=ctx.scale(20, None))):
+        case = dict(hc, backend="cbc" if i % 2 == 0 else "glpk", want="auto")
+        ctx.begin_case(case)
+        ctx.observe("family", "integrality-gap")
         check_case(ctx, case)
     n_cases = ctx.scale(250, 6000)
     for _ in range(n_cases):
